@@ -564,7 +564,26 @@ func allHarnesses(tier checks.Tier) []harness {
 			hs = append(hs, mapHarness(prog, 2))
 		}
 	}
+	// four threads, one operation each (preemption bound 1 quick / 2 thorough): mutators only plus
+	// at most the observers, so that every program has something to collide on
+	for _, prog := range mapPrograms(bodies.MapAlphabet(false), 4, 1) {
+		ro := 0
+		for _, t := range prog {
+			if isReadOnly(t) {
+				ro++
+			}
+		}
+		if ro > 2 {
+			continue
+		}
+		hs = append(hs, mapHarness(prog, bound-1))
+	}
 	// H2
+	for _, typ := range []string{"Counter", "Flag"} {
+		for _, prog := range atomPrograms(bodies.AtomAlphabets[typ], 4, 1) {
+			hs = append(hs, atomHarness(typ, prog, bound-1))
+		}
+	}
 	for _, typ := range []string{"Counter", "Flag", "Int64", "Uint32", "Uint64", "String"} {
 		al := bodies.AtomAlphabets[typ]
 		for _, prog := range atomPrograms(al, 2, 2) {
@@ -708,7 +727,7 @@ func main() {
 	o := &checks.Outcome{Property: P, Tier: tier, Level: "model_checking", Start: start, Violations: viols, SelfCheck: selfCheck,
 		Assumptions: []string{
 			"scheduling points: every RWMutex operation (writer preference modelled: a waiting writer blocks new readers), every sync/atomic operation and every environment (dependency) call; sequential consistency; memory-model effects weaker than that are not modelled",
-			"2-3 threads per harness (the quantifier's 2-16 goroutines are covered with 2-3 exhaustively, not with 16)",
+			"2-4 threads per harness (the quantifier's 2-16 goroutines are covered with 2-3 threads at preemption bound 2 and 4 threads at bound 1, thorough 3 / 2; not with 16)",
 			"unsynchronised accesses are invisible to a cooperative scheduler; they are the business of the separate free-running -race pass over the same bodies, which is a dynamic detector and reported separately",
 			"single schedule-changer thread (concurrent GasScheduleChange calls are outside the statement)",
 		}}
